@@ -3,3 +3,5 @@ pub mod c17;
 pub mod c09;
 pub mod c11;
 pub mod c12;
+pub mod c03;
+pub mod c01;
